@@ -774,7 +774,7 @@ func (env *SpecEnv) callSpecFunc(sf *SpecFunc, x *SExpr) Val {
 	if p := env.st.eng.typesPkgs[sf.Pkg]; p != nil {
 		ne.pkg = p
 	}
-	ne.fn = nil
+	// dynamic scoping: a spec function used inside a function's own contract may name that function's locals
 	res := ne.eval(sf.Body)
 	// name large closed results so that repeated uses (e.g. in every clause of a callee contract) stay small
 	if env.qd == 0 && len(res.Terms) == 1 && len(res.Terms[0]) > 160 && res.Loc == nil {
